@@ -308,6 +308,16 @@ groups.group(id="C05.schemes.storage", prop="C05", kind="K5", functions=["microj
 
 # ---- fixed probes (known deviations are listed in /verif/known_findings.json and reported as KNOWN-FINDING) ------------------
 PROBES_C05 = [('catch-parameter-scope', 'var e = 1; try { throw 2 } catch (e) { } e', 1), ('nested-labels-on-one-loop', 'var n = 0; a: b: while (n < 2) { n++; continue a; } n', 2)]
+# completion value of a script whose LAST statement is not an expression statement, a block or an if: ECMAScript carries the
+# value of the last expression statement executed inside it (UpdateEmpty); the engine yields undefined (open known finding)
+PROBES_C05 += [
+    ("completion-value-of-switch", "switch (1) { case 1: 5 }", 5),
+    ("completion-value-of-loops", "var out = []; out.push(eval('for (var i = 0; i < 2; i++) { i + 10 }')); out.push(eval('var j = 0; while (j < 2) { j++; j * 2 }')); out.push(eval('do { 9 } while (false)')); out.join()", "11,4,9"),
+    ("completion-value-of-try", "[eval('try { 1 } catch (e) { }'), eval('try { throw 1 } catch (e) { e + 1 }'), eval('try { 1 } finally { 2 }')].join()", "1,2,1"),
+    ("completion-value-of-labelled-statement", "lbl: 7", 7),
+    ("completion-value-kept-over-empty-statements", "[eval('8; var y'), eval('8; ;'), eval('8; function f() {}'), eval('5; {}'), String(eval('8; if (0) 1')), String(eval('1; while (false) {}'))].join()", "8,8,8,5,undefined,undefined"),
+    ("completion-value-of-supported-forms", "[eval('1; 2'), eval('{ 4 }'), eval('if (1) { 3 }'), eval('if (0) 1; else 2')].join()", "2,4,3,2"),
+]
 groups.register_probes("C05", PROBES_C05)
 
 
